@@ -151,7 +151,7 @@ def _alarm(_signum, _frame):
 
 def run_tree(item):
     signal.signal(signal.SIGALRM, _alarm)
-    signal.setitimer(signal.ITIMER_REAL, 15)
+    signal.setitimer(signal.ITIMER_REAL, 15, 15)
     try:
         return _run_tree(item)
     finally:
